@@ -154,9 +154,8 @@ def _bar2musicxml(bar):
             note.appendChild(duration)
 
             # check for dots
-            dot = doc.createElement("dot")
             for i in range(0, time[1]):
-                note.appendChild(dot)
+                note.appendChild(doc.createElement("dot"))
             if beat in value.musicxml:
                 type_node = doc.createElement("type")
                 type_node.appendChild(doc.createTextNode(value.musicxml[beat]))
